@@ -47,6 +47,11 @@ def run(chk, tier):
         chk.blind("VN", FN, "decoder not found")
         return
     reader = P(fn.local_name(1) or "reader")
+    gate_buffer(chk, prog)
+    loop_checks(chk, prog, fn, reader)
+
+
+def gate_buffer(chk, prog):
     # ---- gate buffer size
     ev = sym.Evaluator(prog)
     got, f2 = eval_or_blind(chk, ev, "VN", GNEW, [P("header")])
@@ -58,6 +63,9 @@ def run(chk, tier):
         okk = okk and enc[0] == "call" and enc[1] == "alloc::vec::from_elem" and enc[2][0] == C(0, "u8") and strip_ovf(enc[2][1]) == size
         chk.ob("VN", GNEW, okk, "gate buffer = vec![0; gates x (word_size / 8)] and the header is stored unchanged" if okk else
                "gate buffer is %s, expected zeroed gates x (word_size/8) bytes" % show(enc)[:300], f2.where(), key="buffer-size")
+
+
+def loop_checks(chk, prog, fn, reader, only_tail=False):
     # ---- loop summary
     try:
         ls = loops.summarize(prog, fn, opaque=[GNEW])
@@ -116,6 +124,12 @@ def run(chk, tier):
             s0, s1, s2 = steps[0], steps[1], steps[2]
             want_seek = call("std::io::Seek::seek", reader, adt("std::io::SeekFrom", "Start", (("0", binop("Add", okv(call("std::io::Seek::stream_position", reader)), cast(ptr, "u32", "u64"), "u64")),)))
             okp = strip_ovf_deep(s0) == want_seek and s1 == bid and s2 == call("std::io::Seek::seek", reader, adt("std::io::SeekFrom", "Current", (("0", C(-4, "i64")),)))
+        if only_tail:
+            last = steps[-1] if steps else ("?",)
+            okl = last[0] == "call" and (last[1].startswith("nexrad_decode::util::deserialize::<") or last[1] == "std::io::Read::read_exact")
+            chk.ob("R-ORDER", FN, okl, "the last stream operation of an iteration is the block's own read (no seek after it), so the reader ends after the last block in pointer order",
+                   w, key="tail#%d" % n_next)
+            continue
         chk.ob("R-ORDER", FN, okp, "each block is located by an absolute seek to entry position + zext(pointer), its 4-byte id is read and the reader rewound by 4",
                w, key="locate#%d" % n_next)
         lits = [(c[0], c[1]) for c in conds if len(c) == 2 and c[0][0] == "bin" and c[0][1] == "Eq" and sym.is_c(c[0][2]) and isinstance(c[0][2][1], str)]
@@ -144,6 +158,9 @@ def run(chk, tier):
             chk.ob("R-TABLE", FN, False, "an iteration stores a block without exactly one name match (names %s, field %s)" % (true_lits, upd_field), w, key="dispatch-shape#%d" % n_next)
         it = val[li]
         chk.ob("R-LIN", FN, it[0] == "mutated" and it[3][0] == I, "one pointer consumed per iteration", w, key="advance")
+    if only_tail:
+        chk.floor("type-31 iteration shapes", n_next, 10)
+        return
     want_name = call("alloc::string::ToString::to_string", call("alloc::string::String::from_utf8_lossy", fld(okv(bid), "data_name")))
     if name is not None:
         okn = name[0] == "call" and name[2] and name[2][0][0] == "call" and name[2][0][1].endswith("from_utf8_lossy") and name[2][0][2] == (fld(okv(bid), "data_name"),)
